@@ -138,6 +138,44 @@ impl Drop for Held {
     }
 }
 
+/// Very many flushes on one writer (counters that wrap at 16 bits): `n` times one short write followed by an explicit flush
+#[derive(Clone, Debug, Hash, Serialize, Deserialize, PartialEq)]
+pub struct ManyFlushes {
+    pub n: u32,
+    pub every: u8,
+}
+
+pub fn run_many_flushes(m: &ManyFlushes) -> CaseResult {
+    let state = Rc::new(RefCell::new(SinkState::default()));
+    let n = m.n.min(300_000);
+    let every = m.every.max(1) as u32;
+    let mut model: Vec<u8> = Vec::with_capacity(n as usize * 3);
+    {
+        let mut w = Held(Some(Writer::new(Box::new(Sink { spec: SinkSpec { kind: 0, param: 0, interrupts: vec![], burst: 0 }, st: state.clone(), consecutive: 0, burst_left: 0 }))));
+        for i in 0..n {
+            let v = (i % 251) as u8;
+            w.write(&v);
+            w.write_char(' ');
+            model.extend_from_slice(v.to_string().as_bytes());
+            model.push(b' ');
+            if i % every == 0 {
+                w.flush();
+                let s = state.borrow();
+                vensure!(s.log.len() == model.len(), "flush-incomplete", "{:?}: after flush number {} the sink has {} of {} bytes", m, i / every + 1, s.log.len(), model.len());
+            }
+        }
+    }
+    let s = state.borrow();
+    let d = first_diff(&s.log, &model);
+    vensure!(s.log == model, "final-bytes", "{:?}: after drop the sink has {} bytes, written {}; first difference at byte {}", m, s.log.len(), model.len(), d);
+    let mut st = CaseStats::default();
+    st.nontrivial = n / every > 65_536;
+    if st.nontrivial {
+        st.label("more-than-65536-flushes-on-one-writer");
+    }
+    Ok(st)
+}
+
 pub fn long_string(len: u32, seed: u8) -> String {
     let mut s = String::with_capacity(len as usize);
     let mut x = (seed as u32).wrapping_mul(2654435761u32) | 1;
